@@ -29,8 +29,11 @@ func loadWorld(pkgPattern string, harnessFiles []string) (*World, *ssa.Package, 
 		return nil, nil, err
 	}
 	overlay[filepath.Join(repoDir, "zz_verifrt", "rt.go")] = rtSrc
-	if ms, err := os.ReadFile(filepath.Join(verifDir, "rt", "models.go")); err == nil {
-		overlay[filepath.Join(repoDir, "zz_verifrt", "models.go")] = ms
+	rtFiles, _ := filepath.Glob(filepath.Join(verifDir, "rt", "*.go"))
+	for _, f := range rtFiles {
+		if ms, err := os.ReadFile(f); err == nil {
+			overlay[filepath.Join(repoDir, "zz_verifrt", filepath.Base(f))] = ms
+		}
 	}
 	pkgDir := filepath.Join(repoDir, strings.TrimPrefix(pkgPattern, "./"))
 	for _, hf := range harnessFiles {
